@@ -4,7 +4,7 @@ from ..rules import apicompat
 META = {
     "title": "Every pulser-core version the package accepts can run the emulators",
     "technique": "static analysis: cross-package signature/attribute checking of the repo against the installed "
-                 "Pulser source (parsed, never imported), PEP 440 evaluation of the declared specifier",
+                 "Pulser source (parsed, never imported), PEP 440 evaluation of the declared specifier; comparison of the renormalisation guard with the constant read from the installed Pulser",
     "design_ref": "DESIGN.md §5 C31, A.10",
     "explanation": "APICOMPAT: for the offline-available pulser-core release admitted by the specifier declared in "
                    "pyproject.toml and ci/emu_base/pyproject.toml (which must agree): every imported Pulser name "
